@@ -441,11 +441,17 @@ fn gen_text(r: &mut Rng) -> Vec<u8> {
         4 => return b"one\rtwo\r".to_vec(),
         _ => {}
     }
-    let n = r.range(1, 6);
+    // one text in five is long and drawn from two or three lines only (closing braces, blank lines): contexts then
+    // begin with repeated lines and partly match just in front of their true position - the inputs on which a
+    // search that skips ahead after a partial match differs from the line-by-line search
+    let low = r.chance(1, 5);
+    const FEW: [&str; 3] = ["}", "", "x"];
+    let few = if r.chance(1, 2) { 2 } else { 3 };
+    let n = if low { r.range(4, 14) } else { r.range(1, 6) };
     let eol_mode = r.below(6); // 0-2 LF, 3-4 CRLF, 5 mixed
     let mut s = String::new();
     for i in 0..n {
-        s.push_str(*r.pick(&WORDS[..]));
+        s.push_str(if low { *r.pick(&FEW[..few]) } else { *r.pick(&WORDS[..]) });
         let last = i + 1 == n;
         if last && r.chance(1, 3) {
             if r.chance(1, 6) {
@@ -1004,10 +1010,61 @@ fn mutate(r: &mut Rng, lines: &mut Vec<String>) -> &'static str {
         }
     }
 }
+/// Hunk contexts that partly match just in front of their true position: the file holds m+1 copies of a line `a`
+/// then `b`; the hunk's context is m copies of `a` then `b`.  The line-by-line search finds it one line after the
+/// first partial match; a search that skips ahead by the number of lines that did match steps over it and either
+/// refuses the patch or edits a later occurrence of the same context (placed there in half of the cases).
+fn gen_near_match_case(r: &mut Rng) -> Case {
+    let a = r.pick(&["}", "", "x", "    }", "end"]).to_string();
+    let b = r.pick(&["fn f() {", "b", "y"]).to_string();
+    let m = r.range(1, 5) as usize;
+    let extra = r.range(1, 3) as usize; // copies of `a` in front of the true position
+    let mut lines: Vec<String> = (0..r.range(0, 3)).map(|i| format!("pre{i}")).collect();
+    for _ in 0..m + extra {
+        lines.push(a.clone());
+    }
+    lines.push(b.clone());
+    for i in 0..r.range(0, 3) {
+        lines.push(format!("mid{i}"));
+    }
+    if r.chance(1, 2) {
+        for _ in 0..m {
+            lines.push(a.clone());
+        }
+        lines.push(b.clone());
+        lines.push("post".into());
+    }
+    let eol = if r.chance(1, 4) { "\r\n" } else { "\n" };
+    let mut text = lines.join(eol);
+    if r.chance(4, 5) {
+        text.push_str(eol);
+    }
+    let mut before: Vec<String> = vec![a.clone(); m];
+    before.push(b.clone());
+    let mut after: Vec<String> = vec![a.clone(); m];
+    after.push(format!("{b} // edited"));
+    let mut init = Listing::new();
+    init.insert(norm("a.txt").unwrap(), Node::File(text.into_bytes()));
+    if r.chance(1, 2) {
+        init.insert(norm("b.txt").unwrap(), Node::File(b"keep\n".to_vec()));
+    }
+    let mut doc = vec!["*** Begin Patch".to_string(), "*** Update File: a.txt".to_string(), "@@".to_string()];
+    for l in &before[..m] {
+        doc.push(format!(" {l}"));
+    }
+    doc.push(format!("-{b}"));
+    doc.push(format!("+{b} // edited"));
+    doc.push("*** End Patch".into());
+    let op = PatchOp::UpdateFile { path: "a.txt".into(), moved_to: None, hunks: vec![rip_workspace::PatchHunk { before, after }] };
+    Case { init, patch: doc.join("\n"), tag: format!("near-match-m{m}-x{extra}"), intended: Some(vec![op]), intended_paths: true }
+}
 fn gen_case(r: &mut Rng) -> Case {
     // a quarter of the cases: the same-path family
     if r.chance(1, 4) {
         return gen_chain_case(r);
+    }
+    if r.chance(1, 12) {
+        return gen_near_match_case(r);
     }
     let init = gen_init(r);
     let mode = r.below(20);
